@@ -81,6 +81,7 @@ type Violation struct {
 	Inputs    map[string]string `json:"inputs"`
 	Decisions string            `json:"decisions"`
 	Key       string            `json:"key"`
+	ModelOnly bool              `json:"model_only"`
 }
 
 type PathResult struct {
@@ -123,6 +124,7 @@ type Exec struct {
 	assertsHit    map[string]int
 	reached       map[string]int
 	assumes       int
+	modelOnly     bool
 	model         map[string]uint64
 	evalr         *sym.Evaluator
 	known         map[int32]bool
@@ -802,6 +804,7 @@ func (ex *Exec) resetPath() {
 	ex.assertsHit = map[string]int{}
 	ex.reached = map[string]int{}
 	ex.assumes = 0
+	ex.modelOnly = false
 	ex.model, ex.evalr = nil, nil
 	ex.known = map[int32]bool{}
 }
@@ -851,7 +854,7 @@ func (ex *Exec) RunPath(job *Job, prefix []Decision) (res PathResult, alts [][]D
 }
 
 func (ex *Exec) violation(kind, msg, site string) *Violation {
-	v := &Violation{Harness: ex.job.Name, Case: ex.job.Case, Kind: kind, Msg: msg, Site: site, Inputs: map[string]string{}}
+	v := &Violation{Harness: ex.job.Name, Case: ex.job.Case, Kind: kind, Msg: msg, Site: site, Inputs: map[string]string{}, ModelOnly: ex.modelOnly}
 	var want []*sym.Term
 	for _, in := range ex.inputs {
 		want = append(want, in.Term)
